@@ -366,13 +366,20 @@ def validate_first_rule(prog, res):
             gv = g.vertex_of.get(f.strip(guard['cond'], 'all'))
         bad = None
         stores = {}
+        for e in E.events_of(f, 'this'):
+            nid, root, path, kind = e
+            if root != 'this' or kind == 'io':
+                continue
+            v = g.vertex_of.get(nid)
+            if v is None or gv is None or not g.dominates(gv, v):
+                bad = 'member %s is modified before the consistency test (%s)' % ('.'.join(path), f.loc(nid))
+                break
         for e in E.direct[f.usr]:
             nid, root, path, kind = e
             if root != 'this':
                 continue
             v = g.vertex_of.get(nid)
-            if v is None or gv is None or not g.dominates(gv, v):
-                bad = 'member %s is modified before the consistency test (%s)' % ('.'.join(path), f.loc(nid))
+            if bad:
                 break
             node = f.nodes[nid]
             if node['k'] == 'BinaryOperator':
